@@ -1,15 +1,22 @@
 /-
 Model driver for the `di` line protocol (C10).  One operation per input line, one result line each:
   new                                   -> ok            (fresh container; starts a new program)
-  set <n> | setdefault <n>              -> ok | refused  (a fresh caller object each time)
+  set <n> [nil] | setdefault <n> [nil]  -> ok | refused  (a fresh caller object each time, or nil)
   factory <n> <deps> <out>              -> ok | refused  (AddFactory)
   deffactory <n> <deps> <out>           -> ok | refused  (AddDefaultFactory)
        <deps> = - | <name>:<o|r>:<g|i>,…   (optional/required, dp.Get / dp.InjectTo)   <out> = ok|fail|nil
-  get <n>                               -> inst <class> ran=<names> | err <kind> ran=<names>
+  addinjectors <inj>+<inj>+… | addinjectors -   -> ok | refused  (AddInjectors with that slice)
+       <inj> = n | m<t>{<key>=<v|nil>,…} | s<t>{…} | [<inj>+…]
+               nil injector, map injector / data-scope injector for tag name <t> (0 = the provider's own),
+               multi injector; every `v` is a fresh caller object
+  get <n>                               -> inst <class|nil> ran=<names> | err <kind> ran=<names>
   inject <fields>                       -> ok vals=<class|->,… ran=… | err <kind> vals=… ran=…
-       <fields> = - | <name>:<o|r>,…
-  keys                                  -> keys <names>
+       <fields> = - | <name>:<o|r>[:<t>=<tag text>]…,…     the provider's tag is `<name>` / `?<name>`
+  injectbad <what>                      -> panic         (InjectTo of something that is not a pointer to a struct)
+  static                                -> ok            (from here on: NewStaticProvider built from the tables)
+  keys                                  -> keys <names>  (sorted once the provider is static: map order)
   calls                                 -> calls <name>=<count>,…   (factory invocations so far, by name)
+A name is any text without ` :,;+=[]{}-~`; the token `~` is the empty name.
 <class> numbers object identities in order of first appearance in the program's output;
 `ran` lists the factory invocations of this request in order.
 -/
@@ -20,10 +27,25 @@ structure Prog where
   st      : St
   classes : List Inst      -- identity classes in order of first appearance
   nset    : Nat            -- caller objects handed out so far
+  static  : Bool
 
-def Prog.fresh : Prog := { st := St.empty, classes := [], nset := 0 }
+def Prog.fresh : Prog := { st := St.empty, classes := [], nset := 0, static := false }
 
 def join (l : List String) : String := if l.isEmpty then "-" else ",".intercalate l
+
+def nameOf (tok : String) : Name := if tok = "~" then Name.empty else ⟨tok.toList.map Char.toNat⟩
+
+def showName (n : Name) : String :=
+  if n.chars.isEmpty then "~" else String.ofList (n.chars.map Char.ofNat)
+
+def ltChars : List Nat → List Nat → Bool
+  | [], [] => false
+  | [], _ :: _ => true
+  | _ :: _, [] => false
+  | a :: as, b :: bs => a < b || (a == b && ltChars as bs)
+
+def sortNames (l : List Name) : List Name :=
+  (l.toArray.qsort fun a b => ltChars a.chars b.chars).toList
 
 def classOf (p : Prog) (i : Inst) : Prog × Nat :=
   match p.classes.idxOf? i with
@@ -36,19 +58,20 @@ def kindName : Err → String
   | .nilInstance => "nil"
   | .failed => "failed"
   | .fuel => "fuel"
+  | .nilDependency => "nildep"
+  | .injector k => s!"inj{k}"
 
 def ranOf (before after : St) : String :=
   join ((after.log.drop before.log.length).filterMap fun
-    | .start n => some (toString n)
+    | .start n => some (showName n)
     | .done _ _ => none)
 
 def parseDep (s : String) : Option Dep :=
   match s.splitOn ":" with
   | [n, o, v] => do
-    let n ← n.toNat?
     let o ← if o = "o" then some true else if o = "r" then some false else none
     let v ← if v = "i" then some true else if v = "g" then some false else none
-    pure ⟨n, o, v⟩
+    pure ⟨nameOf n, o, v⟩
   | _ => none
 
 def parseFactory (deps out : String) : Option Factory := do
@@ -57,12 +80,74 @@ def parseFactory (deps out : String) : Option Factory := do
           else if out = "nil" then some Out.nilInst else none
   pure ⟨ds, o⟩
 
+def parseExtraTag (s : String) : Option (TagName × Name) :=
+  match s.splitOn "=" with
+  | [t, raw] => do
+    let t ← t.toNat?
+    if raw.isEmpty then none else pure (t, nameOf raw)
+  | _ => none
+
 def parseField (s : String) : Option Field :=
   match s.splitOn ":" with
-  | [n, o] => do
-    let n ← n.toNat?
+  | n :: o :: extra => do
     let o ← if o = "o" then some true else if o = "r" then some false else none
-    pure ⟨n, o⟩
+    let ex ← extra.mapM parseExtraTag
+    let own := if o then (nameOf n).opt else nameOf n
+    pure ⟨(ownTag, own) :: ex⟩
+  | _ => none
+
+/-! the injector grammar, over the characters of the spec; `nset` counts the caller objects -/
+
+def parseEntries (s : String) (nset : Nat) : Option (List (Name × Inst) × Nat) :=
+  if s.isEmpty then some ([], nset) else
+  (s.splitOn ",").foldlM (fun (acc : List (Name × Inst) × Nat) item =>
+    match item.splitOn "=" with
+    | [k, "v"] => some (acc.1 ++ [(nameOf k, Inst.given acc.2)], acc.2 + 1)
+    | [k, "nil"] => some (acc.1 ++ [(nameOf k, Inst.nil)], acc.2)
+    | _ => none) ([], nset)
+
+/-- keep the first entry of every key (the harness builds its Go map the same way) -/
+def dedup (l : List (Name × Inst)) : List (Name × Inst) :=
+  l.foldl (fun acc kv => if acc.any (fun p => p.1 == kv.1) then acc else acc ++ [kv]) []
+
+mutual
+/-- one injector at the head of `cs`; returns it, the rest of the input and the object counter -/
+partial def parseInj (cs : List Char) (nset : Nat) : Option (Injector × List Char × Nat) :=
+  match cs with
+  | 'n' :: rest => some (.nop, rest, nset)
+  | '[' :: ']' :: rest => some (.multi [], rest, nset)
+  | '[' :: rest =>
+    match parseInjList rest nset with
+    | some (l, ']' :: rest', n') => some (.multi l, rest', n')
+    | _ => none
+  | k :: t :: '{' :: rest =>
+    if (k = 'm' || k = 's') && t.isDigit then
+      let body := rest.takeWhile (· ≠ '}')
+      match rest.dropWhile (· ≠ '}') with
+      | '}' :: rest' =>
+        match parseEntries (String.ofList body) nset with
+        | some (data, n') =>
+          let tag := t.toNat - '0'.toNat
+          some (if k = 'm' then .map tag (dedup data) else .scope tag (dedup data), rest', n')
+        | none => none
+      | _ => none
+    else none
+  | _ => none
+/-- `<inj>+<inj>+…` -/
+partial def parseInjList (cs : List Char) (nset : Nat) : Option (List Injector × List Char × Nat) :=
+  match parseInj cs nset with
+  | none => none
+  | some (i, '+' :: rest, n') =>
+    match parseInjList rest n' with
+    | some (l, rest', n'') => some (i :: l, rest', n'')
+    | none => none
+  | some (i, rest, n') => some ([i], rest, n')
+end
+
+def parseInjSpec (s : String) (nset : Nat) : Option (List Injector × Nat) :=
+  if s = "-" then some ([], nset) else
+  match parseInjList s.toList nset with
+  | some (l, [], n') => some (l, n')
   | _ => none
 
 def showAccepted (b : Bool) : String := if b then "ok" else "refused"
@@ -76,40 +161,41 @@ def showVals (p : Prog) (vals : List (Option Inst)) (nfields : Nat) : Prog × St
 
 def countCalls (log : List Ev) : String :=
   let names := log.filterMap fun | .start n => some n | .done _ _ => none
-  let uniq := (names.foldl (fun acc n => if acc.contains n then acc else acc ++ [n]) []).toArray.qsort (· < ·) |>.toList
-  join (uniq.map fun n => s!"{n}={(names.filter (· == n)).length}")
+  let uniq := sortNames (names.foldl (fun acc n => if acc.contains n then acc else acc ++ [n]) [])
+  join (uniq.map fun n => s!"{showName n}={(names.filter (· == n)).length}")
+
+def doSet (p : Prog) (n : String) (isNil dflt : Bool) : Prog × String :=
+  let v := if isNil then Inst.nil else Inst.given p.nset
+  let r := if dflt then setDefault p.st (nameOf n) v else set p.st (nameOf n) v
+  ({ p with st := r.1, nset := if isNil then p.nset else p.nset + 1 }, showAccepted r.2)
 
 def stepLine (p : Prog) (line : String) : Prog × String :=
   match line.splitOn " " with
   | ["new"] => (Prog.fresh, "ok")
-  | ["set", n] =>
-    match n.toNat? with
-    | some n => let r := set p.st n (.given p.nset)
-                ({ p with st := r.1, nset := p.nset + 1 }, showAccepted r.2)
-    | none => (p, "bad-op")
-  | ["setdefault", n] =>
-    match n.toNat? with
-    | some n => let r := setDefault p.st n (.given p.nset)
-                ({ p with st := r.1, nset := p.nset + 1 }, showAccepted r.2)
-    | none => (p, "bad-op")
+  | ["set", n] => doSet p n false false
+  | ["set", n, "nil"] => doSet p n true false
+  | ["setdefault", n] => doSet p n false true
+  | ["setdefault", n, "nil"] => doSet p n true true
   | ["factory", n, deps, out] =>
-    match n.toNat?, parseFactory deps out with
-    | some n, some f => let r := addFactory p.st n f; ({ p with st := r.1 }, showAccepted r.2)
-    | _, _ => (p, "bad-op")
-  | ["deffactory", n, deps, out] =>
-    match n.toNat?, parseFactory deps out with
-    | some n, some f => let r := addDefaultFactory p.st n f; ({ p with st := r.1 }, showAccepted r.2)
-    | _, _ => (p, "bad-op")
-  | ["get", n] =>
-    match n.toNat? with
-    | some n =>
-      let r := Get p.st n
-      let ran := ranOf p.st r.1
-      let p := { p with st := r.1 }
-      match r.2 with
-      | .inst i => let (p, k) := classOf p i; (p, s!"inst {k} ran={ran}")
-      | .err e => (p, s!"err {kindName e} ran={ran}")
+    match parseFactory deps out with
+    | some f => let r := addFactory p.st (nameOf n) f; ({ p with st := r.1 }, showAccepted r.2)
     | none => (p, "bad-op")
+  | ["deffactory", n, deps, out] =>
+    match parseFactory deps out with
+    | some f => let r := addDefaultFactory p.st (nameOf n) f; ({ p with st := r.1 }, showAccepted r.2)
+    | none => (p, "bad-op")
+  | ["addinjectors", spec] =>
+    match parseInjSpec spec p.nset with
+    | some (l, n') => let r := addInjectors p.st l; ({ p with st := r.1, nset := n' }, showAccepted r.2)
+    | none => (p, "bad-op")
+  | ["get", n] =>
+    let r := Get p.st (nameOf n)
+    let ran := ranOf p.st r.1
+    let p := { p with st := r.1 }
+    match r.2 with
+    | .inst .nil => (p, s!"inst nil ran={ran}")
+    | .inst i => let (p, k) := classOf p i; (p, s!"inst {k} ran={ran}")
+    | .err e => (p, s!"err {kindName e} ran={ran}")
   | ["inject", fields] =>
     match (if fields = "-" then some [] else (fields.splitOn ",").mapM parseField) with
     | some fs =>
@@ -121,7 +207,11 @@ def stepLine (p : Prog) (line : String) : Prog × String :=
       | none => (p, s!"ok vals={vals} ran={ran}")
       | some e => (p, s!"err {kindName e} vals={vals} ran={ran}")
     | none => (p, "bad-op")
-  | ["keys"] => (p, s!"keys {join ((Keys p.st).map toString)}")
+  | ["injectbad", _] => let r := step p.st .injectBad; ({ p with st := r.1 }, "panic")
+  | ["static"] => ({ p with st := toStatic p.st (Keys p.st), static := true }, "ok")
+  | ["keys"] =>
+    let ks := if p.static then sortNames (Keys p.st) else Keys p.st
+    (p, s!"keys {join (ks.map showName)}")
   | ["calls"] => (p, s!"calls {countCalls p.st.log}")
   | _ => (p, "bad-op")
 
